@@ -79,6 +79,45 @@ func corpus() []*c03lib.History {
 		c03lib.OpSpec{Op: "lockutxos", Slots: nil, As: "tx:1"},
 		c03lib.OpSpec{Op: "lockinputs", Tx: 0}, c03lib.OpSpec{Op: "writetx", Tx: 2}, c03lib.OpSpec{Op: "finalize", Txs: []int{3}},
 		c03lib.OpSpec{Op: "finalize", Txs: []int{0}})
+	// slot identity over the whole index range: one transaction with the most
+	// outputs the encoding allows (slots 0..255 of ONE hash); requests for
+	// indexes congruent to existing ones mod 128 / 256 / 512 / 1024 must be
+	// "not found" and must not touch the existing slot
+	wideOuts := [][]int{{0}, {1}}
+	for len(wideOuts) < 256 {
+		wideOuts = append(wideOuts, []int{})
+	}
+	wtx := func() []c03lib.TxSpec {
+		return []c03lib.TxSpec{
+			{Kind: "genesis", Tag: "wide", Outs: wideOuts},
+			{Kind: "script", Tag: "w0", Ins: []c03lib.SlotRef{{Tx: 0, Index: 0}}, Outs: [][]int{{3}}},
+			{Kind: "script", Tag: "w256", Ins: []c03lib.SlotRef{{Tx: 0, Index: 256}}, Outs: [][]int{{4}}},
+			{Kind: "script", Tag: "w255", Ins: []c03lib.SlotRef{{Tx: 0, Index: 255}, {Tx: 0, Index: 1}}, Outs: [][]int{{5}}},
+			{Kind: "script", Tag: "w1024", Ins: []c03lib.SlotRef{{Tx: 0, Index: 1024}}, Outs: [][]int{{6}}},
+			{Kind: "script", Tag: "w128", Ins: []c03lib.SlotRef{{Tx: 0, Index: 128}, {Tx: 0, Index: 127}}, Outs: [][]int{{7}}},
+		}
+	}
+	one := func(i uint, as string, fork bool) c03lib.OpSpec {
+		return c03lib.OpSpec{Op: "lockutxos", Slots: []c03lib.SlotRef{{Tx: 0, Index: i}}, As: as, Fork: fork}
+	}
+	wide := func(kind string, ops ...c03lib.OpSpec) {
+		hs = append(hs, &c03lib.History{Kind: kind, NKeys: 10, Txs: wtx(), Ops: append(append([]c03lib.OpSpec{}, seed...), ops...)})
+	}
+	wide("corpus-index-256",
+		one(256, "tx:2", false), one(512, "tx:2", false), one(768, "tx:2", false), one(1024, "tx:4", false),
+		c03lib.OpSpec{Op: "lockinputs", Tx: 2}, c03lib.OpSpec{Op: "lockinputs", Tx: 4},
+		c03lib.OpSpec{Op: "lockinputs", Tx: 1}, c03lib.OpSpec{Op: "writetx", Tx: 1},
+		one(256, "tx:2", true), one(512, "tx:2", true), one(1024, "tx:4", true),
+		c03lib.OpSpec{Op: "lockinputs", Tx: 2, Fork: true}, c03lib.OpSpec{Op: "writetx", Tx: 1})
+	wide("corpus-index-255",
+		one(255, "tx:3", false), one(511, "tx:1", false), one(511, "tx:1", true), one(767, "tx:1", true), one(1023, "tx:1", true),
+		one(257, "tx:1", false), one(1, "tx:3", false), one(257, "tx:1", true), one(513, "tx:1", true),
+		c03lib.OpSpec{Op: "lockinputs", Tx: 3}, c03lib.OpSpec{Op: "writetx", Tx: 3})
+	wide("corpus-index-128",
+		one(127, "tx:5", false), one(128, "tx:5", false), one(129, "tx:1", false), one(383, "tx:1", true), one(384, "tx:1", true),
+		c03lib.OpSpec{Op: "lockinputs", Tx: 5}, c03lib.OpSpec{Op: "writetx", Tx: 5},
+		one(0, "tx:1", false), one(128, "tx:1", true), one(256, "tx:1", true), one(0, "tx:5", false))
+
 	// concurrent: three ordinary contenders and one fork contender on shared slots
 	hs = append(hs, &c03lib.History{Kind: "corpus-conc", NKeys: 10, Txs: g(), Ops: seed, Conc: []c03lib.OpSpec{
 		{Op: "lockinputs", Tx: 1}, {Op: "lockinputs", Tx: 2}, {Op: "lockinputs", Tx: 3},
@@ -90,7 +129,7 @@ func corpus() []*c03lib.History {
 
 func main() {
 	c := vh.Start("C03")
-	c.Rep.Rule = "history = small world (2 genesis, 4-6 spends over their outputs, deposits from a pool differing only in chain / tx id / index incl. ids with ':', mints on 2 batches, 10 output keys) + up to 40 calls drawn with a state-aware bias (lock inputs 36%, write 16%, finalize 10%, raw lock calls with foreign/zero/exception callers and out-of-range indices 26%, key locks 9%), every call on a real Badger store with a dump after it; concurrent histories add a batch of 9-14 lock/finalize calls from 8 goroutines. Non-trivial: at least two calls changed the store; distinct: the sequence of (call kind, result class) plus final sizes."
+	c.Rep.Rule = "history = small world (2 genesis, 4-6 spends over their outputs, deposits from a pool differing only in chain / tx id / index incl. ids with ':', mints on 2 batches, 10 output keys; every 4th world has a 256-output transaction and requests over indexes 0..InputIndexLimit+1 incl. 0/128/256/512/1024, 1/257, 255/511) + up to 40 calls drawn with a state-aware bias (lock inputs 36%, write 16%, finalize 10%, raw lock calls with foreign/zero/exception callers and out-of-range indices 26%, key locks 9%), every call on a real Badger store with a dump after it; concurrent histories add a batch of 9-14 lock/finalize calls from 8 goroutines. Non-trivial: at least two calls changed the store; distinct: the sequence of (call kind, result class) plus final sizes."
 	if c.Replay != "" {
 		var h c03lib.History
 		c.ReplayCase(&h)
@@ -103,11 +142,11 @@ func main() {
 	nconc := c.Scale(60, 2000)
 	rs := c.Rng.Fork("seq")
 	for i := 0; i < nseq; i++ {
-		hs = append(hs, c03lib.GenHistory(rs, "seq", c03lib.WeightsC03, rs.Range(12, 40), 0))
+		hs = append(hs, c03lib.GenHistoryW(rs, "seq", c03lib.WeightsC03, rs.Range(12, 40), 0, i%4 == 3))
 	}
 	rc := c.Rng.Fork("conc")
 	for i := 0; i < nconc; i++ {
-		hs = append(hs, c03lib.GenHistory(rc, "conc", c03lib.WeightsC03, rc.Range(4, 16), rc.Range(9, 14)))
+		hs = append(hs, c03lib.GenHistoryW(rc, "conc", c03lib.WeightsC03, rc.Range(4, 16), rc.Range(9, 14), i%5 == 4))
 	}
 	c03lib.RunAll(c, hs, c03lib.Workers)
 	c.Note(fmt.Sprintf("goroutines per concurrent batch: %d", c03lib.Goroutines))
